@@ -29,6 +29,7 @@ SCHEMA = {
     "arr": "arr:num", "strs": "arr:str", "objs": "arr:obj", "obj": "obj", "nest": "obj", "nas": "nas", "t": "epoch",
     "bools": "arr:bool", "lists": "arr:arr", "tw": "obj",
 }
+# (pat / fmt / which are not in SCHEMA: they are only reached through the dedicated argument forms below)
 # unequal objects that feed identical byte streams to a hasher that writes no lengths (see C10): equality must tell them apart
 TWINS = [{"a": {"b": 1}}, {"a": {}, "b": 1}, {"a": {"b": 1, "c": 2}}, {"a": {"b": 1}, "c": 2}]
 ELEM = {"arr:num": "num", "arr:str": "str", "arr:obj": "eobj", "arr:bool": "bool", "arr:any": "any", "arr:arr": "arr:num"}
@@ -72,6 +73,11 @@ def gen_record(rng):
     maybe("bools", lambda: [rng.random() < 0.6 for _ in range(rng.choice((0, 1, 2, 3)))], 0.7)
     maybe("lists", lambda: [[rng.choice((1, 2, 3)) for _ in range(rng.choice((0, 1, 2)))] for _ in range(rng.choice((0, 1, 2, 3)))], 0.7)
     maybe("tw", lambda: rng.choice(TWINS), 0.3)
+    # arguments that are usually literals in programs may just as well come from the record: a pattern, a time format
+    # (also one that is valid only up to a point), the name of a variable
+    maybe("pat", lambda: rng.choice(REGEXES), 0.35)
+    maybe("fmt", lambda: rng.choice(FORMATS + ["%Y-%Q", "%H:%M:%", "%F %T %!"]), 0.35)
+    maybe("which", lambda: rng.choice(VARNAMES), 0.35)
     return r
 
 
@@ -121,10 +127,12 @@ EXTREME_NUMS = [-(2 ** 63), -(2 ** 63) + 1, -1, 0, 1, 2 ** 63 - 1, 2 ** 63, 2 **
 KINDS = ["num", "int", "str", "bool", "null", "arr:num", "arr:str", "arr:obj", "arr:bool", "arr:arr", "obj", "any", "nas"]
 VARNAMES = ["v", "w", "acc", "x1", "tmp_2", "größe", "数"]
 MACRONAMES = ["m", "f1", "helper", "añadir"]
-REGEXES = ["a", "^a", "b$", "a.c", "[a-c]+", "(a)(b)?", "x|y", "[0-9]+", "(é)", "a*", "\\\\d+", "(", "[", "h(el+)o", "^$"]
+REGEXES = ["a", "^a", "b$", "a.c", "[a-c]+", "(a)(b)?", "x|y", "[0-9]+", "(é)", "a*", "\\\\d+", "(", "[", "h(el+)o", "^$",
+           # groups that exist but may not take part in a match (optional, alternation): group numbers must not shift
+           "(a)?(b)", "(x)|(y)|(a)", "(h)?(e)?(l+)", "([0-9]+)?-?([a-z]+)", "(a)|(b)"]
 FORMATS = ["%Y-%m-%d", "%H:%M:%S", "%Y-%m-%dT%H:%M:%S", "%F %T", "%j", "%Y", "%d/%m/%Y %H:%M", "%%", "%Q", "%", "%Y-%m-%d %z",
            "%F %T%.3f", "%Y-%m-%d %H:%M:%S%.3f", "%T%.6f", "%F %T%.9f"]
-ENVNAMES = ["JAWK_VF_A", "JAWK_VF_E", "JAWK_VF_MISSING", "JAWK_VF_U"]
+ENVNAMES = ["JAWK_VF_A", "JAWK_VF_E", "JAWK_VF_MISSING", "JAWK_VF_U", "JAWK_VF_L1"]
 
 
 class Gen:
@@ -316,8 +324,8 @@ class Gen:
             add("stringify", lambda g, sc, d: C("stringify", g("any")))
             add("env", lambda g, sc, d: C("env", ("lit", r.choice(ENVNAMES))))
             add("base63_decode", lambda g, sc, d: C("base63_decode", ("lit", r.choice(("aGVsbG8=", "w6k=", "", "!!!", "aGVsbG8", "/w==", "YQ==")))))
-            add("format_time", lambda g, sc, d: C("format_time", g("epoch"), self.lit("fmt")))
-            add("extract_regex_group", lambda g, sc, d: C("extract_regex_group", g("str"), self.lit("regex"), g("int")))
+            add("format_time", lambda g, sc, d: C("format_time", g("epoch"), self.lit_or_field("fmt", "fmt", sc)))
+            add("extract_regex_group", lambda g, sc, d: C("extract_regex_group", g("str"), self.lit_or_field("regex", "pat", sc), g("int")))
         if kind in ("nas", "any", "str"):
             add('"+"', lambda g, sc, d: C(r.choice(('"+"', '"*"')), *[g("nas") for _ in range(r.choice((2, 3)))]))
             add('"-"', lambda g, sc, d: C('"-"', *[g("nas") for _ in range(r.choice((1, 2)))]))
@@ -329,7 +337,7 @@ class Gen:
             add("xor", lambda g, sc, d: C("xor", g("bool"), g("bool")))
             add("not", lambda g, sc, d: C("not", g("bool")))
             add("any", lambda g, sc, d: C(r.choice(("any", "all")), g("arr:bool")))
-            add("match", lambda g, sc, d: C("match", g("str"), self.lit("regex")))
+            add("match", lambda g, sc, d: C("match", g("str"), self.lit_or_field("regex", "pat", sc)))
             add("array?", lambda g, sc, d: C(r.choice(("array?", "object?", "string?", "number?", "bool?", "null?", "empty?")), g("any")))
             add('"<"', lambda g, sc, d: C(r.choice(('"<"', '"<="', '">"', '">="', '"="', '"!="')), g("nas"), g("nas")))
         if kind.startswith("arr") or kind == "any":
@@ -470,9 +478,27 @@ class Gen:
         body = self.gen(kind, sc.with_macro(name, mk), d + 1)
         return ("call", "define", (("lit", name), m, body))
 
+    def lit_or_field(self, litkind, field, sc):
+        """A literal of the given kind, or the record's own value for it with the literal as fallback.  The second form yields
+        a string whatever the input is and still depends on the input - a function must not mistake it for a constant."""
+        lit = self.lit(litkind)
+        r = self.rng
+        if sc.dot != "rec" and not (sc.parents and sc.parents[0] == "rec"):
+            return lit
+        path = ("path", 0 if sc.dot == "rec" else 1, (("k", field),))
+        x = r.random()
+        if x < 0.6:
+            return lit
+        if x < 0.85:
+            return ("call", "default", (path, lit))
+        return ("call", "?", (("call", "string?", (path,)), path, lit))
+
     def mk_varfn(self, kind, sc, d):
         r = self.rng
         names = [n for n, k in sc.vars.items() if k == kind or kind == "any"]
+        if names and r.random() < 0.2 and sc.dot == "rec":
+            # the name of the variable is computed: the record says which one (with a fallback)
+            return ("call", ":", (("call", "default", (("path", 0, (("k", "which"),)), ("lit", r.choice(names)))),))
         if names and r.random() < 0.7:
             return ("call", ":", (("lit", r.choice(names)),))
         mnames = [n for n, k in sc.macros.items() if k == kind or kind == "any"]
